@@ -1,4 +1,363 @@
-//! C03: harness domain (stub).
+//! C03: every valid external encoding of a value decodes to exactly that value.
+//! The harness writes alternative admissible encodings; the Lean Spec reads them independently and compares the value
+//! with what the library's decoder returned.
+use crate::canon::{hex, hexarg, term_text};
+use crate::oracle::oracle_for;
+use crate::rng::Rng;
+use crate::tgen::{gen_term, Cfg};
 use crate::Ctx;
+use erltf::types::Sign;
+use erltf::OwnedTerm;
+use std::io::Write;
 
-pub fn run(_ctx: &mut Ctx) {}
+fn text_float(f: f64) -> [u8; 31] {
+    // Erlang's "%.20e": d.dddddddddddddddddddde+XX
+    let s = format!("{:.20e}", f); // Rust: 1.00000000000000000000e0
+    let (mant, exp) = s.split_once('e').unwrap();
+    let e: i32 = exp.parse().unwrap();
+    let t = format!("{}e{}{:02}", mant, if e < 0 { '-' } else { '+' }, e.abs());
+    let mut out = [0u8; 31];
+    out[..t.len().min(31)].copy_from_slice(&t.as_bytes()[..t.len().min(31)]);
+    out
+}
+
+fn put_big(v: &mut Vec<u8>, neg: bool, digits: &[u8], r: &mut Rng) {
+    let mut d = digits.to_vec();
+    // non-minimal widths are admissible
+    if r.chance(1, 4) {
+        let extra = r.range(1, 3) as usize;
+        d.extend(std::iter::repeat(0).take(extra));
+    }
+    if d.len() > 255 || r.chance(1, 8) {
+        v.push(111);
+        v.extend_from_slice(&(d.len() as u32).to_be_bytes());
+    } else {
+        v.push(110);
+        v.push(d.len() as u8);
+    }
+    v.push(if neg { if r.chance(1, 4) { 255 } else { 1 } } else { 0 });
+    v.extend_from_slice(&d);
+}
+
+fn put_int(v: &mut Vec<u8>, i: i64, r: &mut Rng) {
+    let k = r.below(4);
+    if (0..=255).contains(&i) && k < 2 {
+        v.push(97);
+        v.push(i as u8);
+    } else if i >= i32::MIN as i64 && i <= i32::MAX as i64 && k < 3 {
+        v.push(98);
+        v.extend_from_slice(&(i as i32).to_be_bytes());
+    } else {
+        let mut d = i.unsigned_abs().to_le_bytes().to_vec();
+        while d.last() == Some(&0) {
+            d.pop();
+        }
+        put_big(v, i < 0, &d, r);
+    }
+}
+
+fn put_atom(v: &mut Vec<u8>, a: &str, r: &mut Rng, stats: &mut Vec<&'static str>) {
+    let latin1: Option<Vec<u8>> = a.chars().map(|c| if (c as u32) < 256 { Some(c as u32 as u8) } else { None }).collect();
+    let b = a.as_bytes();
+    match (r.below(4), latin1) {
+        (0, Some(l)) if l.len() <= 255 => {
+            stats.push("atom_small_latin1");
+            v.push(115);
+            v.push(l.len() as u8);
+            v.extend_from_slice(&l);
+        }
+        (1, Some(l)) => {
+            stats.push("atom_latin1");
+            v.push(100);
+            v.extend_from_slice(&(l.len() as u16).to_be_bytes());
+            v.extend_from_slice(&l);
+        }
+        (2, _) | (0, _) if b.len() <= 255 => {
+            v.push(119);
+            v.push(b.len() as u8);
+            v.extend_from_slice(b);
+        }
+        _ => {
+            v.push(118);
+            v.extend_from_slice(&(b.len() as u16).to_be_bytes());
+            v.extend_from_slice(b);
+        }
+    }
+}
+
+/// one admissible encoding of `t`, chosen at random per node
+pub fn alt(v: &mut Vec<u8>, t: &OwnedTerm, r: &mut Rng, stats: &mut Vec<&'static str>) {
+    // LOCAL_EXT may wrap any term
+    if r.chance(1, 25) {
+        stats.push("local_wrap");
+        v.push(121);
+        v.extend(r.bytes(8));
+    }
+    match t {
+        OwnedTerm::Atom(a) => put_atom(v, a.as_str(), r, stats),
+        OwnedTerm::Integer(i) => put_int(v, *i, r),
+        OwnedTerm::BigInt(b) => put_big(v, b.sign == Sign::Negative, &b.digits, r),
+        OwnedTerm::Float(f) => {
+            if r.chance(1, 3) {
+                stats.push("float_text");
+                v.push(99);
+                v.extend_from_slice(&text_float(*f));
+            } else {
+                v.push(70);
+                v.extend_from_slice(&f.to_bits().to_be_bytes());
+            }
+        }
+        OwnedTerm::Binary(b) => {
+            v.push(109);
+            v.extend_from_slice(&(b.len() as u32).to_be_bytes());
+            v.extend_from_slice(b);
+        }
+        OwnedTerm::String(s) => {
+            v.push(109);
+            v.extend_from_slice(&(s.len() as u32).to_be_bytes());
+            v.extend_from_slice(s.as_bytes());
+        }
+        OwnedTerm::BitBinary { bytes, bits } => {
+            v.push(77);
+            v.extend_from_slice(&(bytes.len() as u32).to_be_bytes());
+            v.push(*bits);
+            v.extend_from_slice(bytes);
+        }
+        OwnedTerm::Nil => v.push(106),
+        OwnedTerm::List(l) => {
+            let small = l.iter().all(|e| matches!(e, OwnedTerm::Integer(i) if (0..=255).contains(i)));
+            if l.is_empty() {
+                if r.chance(1, 3) {
+                    stats.push("string_ext");
+                    v.extend_from_slice(&[107, 0, 0]);
+                } else {
+                    v.push(106);
+                }
+            } else if small && l.len() <= 65535 && r.chance(2, 3) {
+                stats.push("string_ext");
+                v.push(107);
+                v.extend_from_slice(&(l.len() as u16).to_be_bytes());
+                for e in l {
+                    if let OwnedTerm::Integer(i) = e {
+                        v.push(*i as u8);
+                    }
+                }
+            } else {
+                v.push(108);
+                v.extend_from_slice(&(l.len() as u32).to_be_bytes());
+                for e in l {
+                    alt(v, e, r, stats);
+                }
+                v.push(106);
+            }
+        }
+        OwnedTerm::ImproperList { elements, tail } => {
+            v.push(108);
+            v.extend_from_slice(&(elements.len() as u32).to_be_bytes());
+            for e in elements {
+                alt(v, e, r, stats);
+            }
+            alt(v, tail, r, stats);
+        }
+        OwnedTerm::Tuple(l) => {
+            if l.len() <= 255 && r.chance(3, 4) {
+                v.push(104);
+                v.push(l.len() as u8);
+            } else {
+                stats.push("large_tuple");
+                v.push(105);
+                v.extend_from_slice(&(l.len() as u32).to_be_bytes());
+            }
+            for e in l {
+                alt(v, e, r, stats);
+            }
+        }
+        OwnedTerm::Map(m) => {
+            v.push(116);
+            v.extend_from_slice(&(m.len() as u32).to_be_bytes());
+            let mut kv: Vec<_> = m.iter().collect();
+            r.shuffle(&mut kv);
+            for (k, val) in kv {
+                alt(v, k, r, stats);
+                alt(v, val, r, stats);
+            }
+        }
+        OwnedTerm::Pid(p) => {
+            if p.creation < 256 && r.chance(1, 2) {
+                stats.push("pid_ext");
+                v.push(103);
+                put_atom(v, p.node.as_str(), r, stats);
+                v.extend_from_slice(&p.id.to_be_bytes());
+                v.extend_from_slice(&p.serial.to_be_bytes());
+                v.push(p.creation as u8);
+            } else {
+                v.push(88);
+                put_atom(v, p.node.as_str(), r, stats);
+                v.extend_from_slice(&p.id.to_be_bytes());
+                v.extend_from_slice(&p.serial.to_be_bytes());
+                v.extend_from_slice(&p.creation.to_be_bytes());
+            }
+        }
+        OwnedTerm::Port(p) => {
+            let k = r.below(3);
+            if p.id < (1 << 32) && p.creation < 256 && k == 0 {
+                stats.push("port_ext");
+                v.push(102);
+                put_atom(v, p.node.as_str(), r, stats);
+                v.extend_from_slice(&(p.id as u32).to_be_bytes());
+                v.push(p.creation as u8);
+            } else if p.id < (1 << 32) && k <= 1 {
+                stats.push("new_port_ext");
+                v.push(89);
+                put_atom(v, p.node.as_str(), r, stats);
+                v.extend_from_slice(&(p.id as u32).to_be_bytes());
+                v.extend_from_slice(&p.creation.to_be_bytes());
+            } else {
+                v.push(120);
+                put_atom(v, p.node.as_str(), r, stats);
+                v.extend_from_slice(&p.id.to_be_bytes());
+                v.extend_from_slice(&p.creation.to_be_bytes());
+            }
+        }
+        OwnedTerm::Reference(x) => {
+            let k = r.below(3);
+            if x.ids.len() == 1 && x.creation < 256 && k == 0 {
+                stats.push("reference_ext");
+                v.push(101);
+                put_atom(v, x.node.as_str(), r, stats);
+                v.extend_from_slice(&x.ids[0].to_be_bytes());
+                v.push(x.creation as u8);
+            } else if x.creation < 256 && k <= 1 {
+                stats.push("new_reference_ext");
+                v.push(114);
+                v.extend_from_slice(&(x.ids.len() as u16).to_be_bytes());
+                put_atom(v, x.node.as_str(), r, stats);
+                v.push(x.creation as u8);
+                for i in &x.ids {
+                    v.extend_from_slice(&i.to_be_bytes());
+                }
+            } else {
+                v.push(90);
+                v.extend_from_slice(&(x.ids.len() as u16).to_be_bytes());
+                put_atom(v, x.node.as_str(), r, stats);
+                v.extend_from_slice(&x.creation.to_be_bytes());
+                for i in &x.ids {
+                    v.extend_from_slice(&i.to_be_bytes());
+                }
+            }
+        }
+        OwnedTerm::ExternalFun(f) => {
+            v.push(113);
+            put_atom(v, f.module.as_str(), r, stats);
+            put_atom(v, f.function.as_str(), r, stats);
+            v.push(97);
+            v.push(f.arity);
+        }
+        OwnedTerm::InternalFun(f) => {
+            let mut b = vec![f.arity];
+            b.extend_from_slice(&f.uniq);
+            b.extend_from_slice(&f.index.to_be_bytes());
+            b.extend_from_slice(&(f.free_vars.len() as u32).to_be_bytes());
+            put_atom(&mut b, f.module.as_str(), r, stats);
+            for x in [f.old_index, f.old_uniq] {
+                if x < 256 && r.chance(1, 2) {
+                    b.push(97);
+                    b.push(x as u8);
+                } else {
+                    b.push(98);
+                    b.extend_from_slice(&(x as i32).to_be_bytes());
+                }
+            }
+            alt(&mut b, &OwnedTerm::Pid(f.pid.clone()), r, stats);
+            for fv in &f.free_vars {
+                alt(&mut b, fv, r, stats);
+            }
+            v.push(112);
+            v.extend_from_slice(&((b.len() + 4) as u32).to_be_bytes());
+            v.extend_from_slice(&b);
+        }
+    }
+}
+
+/// strip what only the library's in-memory form has (preserved LOCAL_EXT bytes)
+fn plain(t: &OwnedTerm) -> OwnedTerm {
+    erltf::decode(&erltf::encode(t).unwrap_or_default()).unwrap_or(OwnedTerm::Nil)
+}
+
+pub fn check_bytes(ctx: &mut Ctx, class: &str, bytes: &[u8]) {
+    let Some(orc) = oracle_for(bytes) else {
+        ctx.count("skipped_oracle_too_large");
+        return;
+    };
+    let (dr, _) = crate::c01::dec_result(bytes);
+    ctx.tie("gen", &format!("dec {} {}", hexarg(bytes), orc), &dr);
+    // the oracle: the Lean Spec reads the same bytes; the decoded term must denote exactly that value
+    ctx.prop(class, &format!("c03 {} {} {}", hexarg(bytes), orc, dr.replace(' ', "~")), "ok");
+}
+
+pub fn run(ctx: &mut Ctx) {
+    let n = ctx.n(1200, 40000);
+    let cfg = Cfg { huge: false, local_ids: false, ..Cfg::default() };
+    for _ in 0..n {
+        let t = gen_term(&mut ctx.rng, &cfg, 0);
+        // old_index/old_uniq are written as SMALL_INTEGER/INTEGER: keep them in range (WF), floats finite (WF)
+        let _ = plain;
+        for _ in 0..2 {
+            let mut stats = vec![];
+            let mut b = vec![131u8];
+            alt(&mut b, &t, &mut ctx.rng, &mut stats);
+            for s in stats {
+                ctx.count(&format!("form_{}", s));
+            }
+            // COMPRESSED at top level
+            if ctx.rng.chance(1, 6) {
+                let mut e = flate2::write::ZlibEncoder::new(Vec::new(), flate2::Compression::default());
+                e.write_all(&b[1..]).unwrap();
+                let z = e.finish().unwrap();
+                let mut c = vec![131u8, 80];
+                c.extend_from_slice(&((b.len() - 1) as u32).to_be_bytes());
+                c.extend_from_slice(&z);
+                b = c;
+                ctx.count("form_compressed");
+            }
+            check_bytes(ctx, "gen", &b);
+            // bytes after one complete term are an error, never ignored
+            if ctx.rng.chance(1, 4) {
+                let mut tb = b.clone();
+                let k = 1 + ctx.rng.below(4) as usize;
+                tb.extend(ctx.rng.bytes(k));
+                match erltf::decode(&tb) {
+                    Err(erltf::errors::DecodeError::TrailingData(m)) if m == k => ctx.count("trailing_reported"),
+                    Err(_) if b[1] == 80 => ctx.count("trailing_reported"), // a zlib stream followed by junk may fail in inflate
+                    other => ctx.fail("c03-trailing-ignored", &format!("{} -> {:?}", hex(&tb), other.map(|t| term_text(&t)))),
+                }
+                match erltf::decoder::decode_with_trailing(&tb) {
+                    Ok((_, rest)) if rest.len() == k => {}
+                    Err(_) if b[1] == 80 => {}
+                    other => ctx.fail("c03-trailing-ignored", &format!("decode_with_trailing {} -> {:?}", hex(&tb), other.map(|(t, r)| (term_text(&t), r.len())))),
+                }
+            }
+        }
+    }
+    // maps whose keys are distinct in Erlang but numerically equal (1 and 1.0): the recorded finding
+    let one_f = 1.0f64.to_bits().to_be_bytes();
+    let mut m = vec![131u8, 116, 0, 0, 0, 2, 97, 1, 97, 10, 70];
+    m.extend_from_slice(&one_f);
+    m.extend_from_slice(&[97, 20]);
+    check_bytes(ctx, "kf-c03-numeric-key-collision", &m);
+    let mut m2 = vec![131u8, 104, 1, 116, 0, 0, 0, 2, 70];
+    m2.extend_from_slice(&one_f);
+    m2.extend_from_slice(&[119, 1, 97, 98, 0, 0, 0, 1, 119, 1, 98]);
+    check_bytes(ctx, "kf-c03-numeric-key-collision", &m2);
+    // compressed payloads that declare the wrong size or carry bytes after the term must be refused
+    for (inner, declared_delta, tag) in [(vec![97u8, 5], 0i64, "exact"), (vec![97, 5], 1, "short"), (vec![97, 5], -1, "long"), (vec![97, 5, 106], 0, "trailing-inside")] {
+        let mut e = flate2::write::ZlibEncoder::new(Vec::new(), flate2::Compression::default());
+        e.write_all(&inner).unwrap();
+        let z = e.finish().unwrap();
+        let mut c = vec![131u8, 80];
+        c.extend_from_slice(&((inner.len() as i64 + declared_delta) as u32).to_be_bytes());
+        c.extend_from_slice(&z);
+        ctx.count(&format!("compressed_{}", tag));
+        check_bytes(ctx, "gen", &c);
+    }
+}
